@@ -1,6 +1,7 @@
 (* C19 -- splitting utilities tile the band and the array exactly. *)
 From Coq Require Import List Arith ZArith QArith Bool PrimFloat.
 From SV Require Import Base.Rounding Base.F64 Model.Split Proofs.Split.
+From SV Require Import Kernels.Gen19 Proofs.K19.
 Import ListNotations.
 Local Open Scope nat_scope.
 
@@ -44,6 +45,14 @@ Theorem c19_trim : forall H W th tw r c, 1 <= th -> 1 <= tw -> r * th < H -> c *
   (Nat.eqb (width (tile H W th tw r c)) tw = true <-> (c + 1) * tw <= W).
 Proof. exact trim_full. Qed.
 Print Assumptions c19_trim.
+
+(* the piece-count and window-edge expressions of the CURRENT source (Kernels/Gen19.v, regenerated on every run) are the model's *)
+Theorem c19_source_pieces : forall nchans fchans s fch1 foff i, (fchans <= nchans)%nat -> (1 <= s)%nat ->
+  src_num_splits (Z.of_nat nchans) (Z.of_nat fchans) (Z.of_nat s) = Z.of_nat (n_pieces nchans fchans s) /\
+  (fst (piece_freqs fch1 foff fchans s i) == src_piece_f_start fch1 foff (Z.of_nat i) (Z.of_nat s))%Q /\
+  (snd (piece_freqs fch1 foff fchans s i) == src_piece_f_stop (src_piece_f_start fch1 foff (Z.of_nat i) (Z.of_nat s)) foff (Z.of_nat fchans))%Q.
+Proof. exact k19_all. Qed.
+Print Assumptions c19_source_pieces.
 
 Example c19_example :
   n_pieces 2560 256 256 = 10 /\ n_pieces 1000 256 100 = 8 /\ pieces 10 4 3 = [(0,4);(3,7);(6,10)] /\
